@@ -147,6 +147,10 @@ pub fn explore<S: System>(sys: &S, lim: &Limits) -> (Stats, Vec<Violation>) {
         }
         stats.states += new_states;
         stats.per_depth_new_states.push(new_states);
+        if std::env::var("VERIF_PROGRESS").is_ok() {
+            let rss = std::fs::read_to_string("/proc/self/statm").ok().and_then(|s| s.split_whitespace().nth(1).and_then(|x| x.parse::<u64>().ok())).unwrap_or(0) * 4096 / (1 << 20);
+            eprintln!("progress: depth {depth} new states {new_states} total {} frontier {} elapsed {:.0}s rss {} MiB", stats.states, new_frontier.len(), start.elapsed().as_secs_f64(), rss);
+        }
         if !level_complete {
             frontier = new_frontier;
             break;
